@@ -17,6 +17,10 @@ import traceback
 
 HERE = os.path.dirname(os.path.abspath(__file__))
 sys.path.insert(0, HERE)
+if os.environ.get("VERIF_REPO"):
+    # development aid only (evaluating a seeded change in its own scratch worktree without touching /repo); the registered
+    # commands never set it, so they always import sparseSpACE from /repo's working tree (editable install)
+    sys.path.insert(0, os.environ["VERIF_REPO"])
 
 from mc import core  # noqa: E402
 
